@@ -41,7 +41,7 @@ def _replay(r):
 
 
 def check(pid, tier, seed):
-    return p_sync.check(pid, tier, seed, {"scenarios": SCEN, "replay": _replay})
+    return p_sync.check(pid, tier, seed, {"scenarios": SCEN, "replay": _replay, "conformance": {"thorough": [("gc", "prim"), ("set", "prim")]}})
 
 
 def replay(pid, path):
